@@ -11,6 +11,7 @@ import gen
 
 PID = "C05"
 LEAN_MODULES = ["MirProofs.Props.C05", "MirProofs.Props.C05_Transcription", "MirProofs.Props.C05_HK"]
+TRANSLATOR_PARTS = ["hkshape"]     # harness/translate/hkshape.py: util._bipartite_match still has the shape hkMatch was transliterated from
 RULE = ("bipartite graphs enumerated exhaustively (quick: all graphs up to 3x4 vertices, thorough: up to 4x5) "
         "and drawn at random up to 12x12 (thorough 40x40) incl. greedy-defeating gadgets; event sets on the "
         "1/32 s lattice with duplicates and pairs exactly at the window edge; a case is non-trivial when the "
@@ -19,6 +20,13 @@ RULE = ("bipartite graphs enumerated exhaustively (quick: all graphs up to 3x4 v
         "for pair with util._bipartite_match on every adjacency dict up to 3x4 (thorough 4x5) in natural and in a "
         "shuffled insertion order, and on random dicts up to 12x12 (thorough 40x40) with shuffled key order, "
         "shuffled/repeated neighbours, empty lists and sparse vertex ids")
+RULE += ("; structures adversarial for the routine's control flow (harness/hkgraphs.py): families of alternating chains "
+         "with 1..k greedy-matched edges, k <= 10 (thorough 14), in the dict order that makes the greedy start wrong on "
+         "every chain (one Hopcroft-Karp phase per distinct length), equal-length families, single chains up to 120 "
+         "(thorough 392) edges deep, shuffled / relabelled / with stray edges -- as dicts (transliteration pair for pair, "
+         "real pairing through the proved checker) and embedded on the lattice as events, note onsets and multi-f0 "
+         "frames; the caller's array dtype: whole-second events / boundaries / notes / MIDI numbers handed over as "
+         "int64, int32 (lattice values also as float32) with estimates on and off the grid, same exact expectations")
 ASSUMPTIONS = [
     "two ∀-graphs theorems: maxMatchSize_isMax about the certifying model, and C05_HK.hk_result_is_valid_matching / "
     "hk_result_is_maximum about hkMatch, the dict-order-faithful transliteration of util._bipartite_match; that the "
@@ -27,6 +35,9 @@ ASSUMPTIONS = [
     "additionally run through the proved checker (valid ∧ size = maximum)",
     "note/frequency matching criteria (transcription, multipitch) are compared at the level of the feasibility "
     "predicate evaluated in floating point by the code vs exact rationals in the model, on lattice inputs",
+    "translator part hkshape: a SYNTACTIC tie only -- the normalised AST of util._bipartite_match equals the shape pinned "
+    "when hkMatch was transliterated (harness/translate/hkshape_pinned.txt); any edit of the routine is a broken obligation "
+    "(fails closed also on harmless edits), what an edited routine computes is decided by the hk.* suites and the oracles",
 ]
 UNPROVED = []
 EXHAUSTIVE = {"quick": True, "thorough": True}
@@ -119,37 +130,76 @@ def events_instance(rng):
     return ref, est, w
 
 
+def typed_events_instance(rng):
+    """-> (ref, est, window, dtype per side, tag): the caller's arrays are not float64.  Whole-second annotations in
+    integer arrays against estimates off the grid (and on it), lattice events in single precision; the window is handed
+    over as a Python float as always.  The values are the same numbers whatever the container (gen.arr_as)."""
+    if rng.random() < 0.7:
+        ref, est, w = gen.whole_events(rng)
+        dt = gen.pick_dtypes(rng)
+        if rng.random() < 0.5:
+            dt["ref"] = dt.get("ref") or rng.choice(["int64", "int32"])
+        if rng.random() < 0.3:
+            rng.shuffle(ref)
+    else:
+        ref, est, w = events_instance(rng)
+        dt = rng.choice([{"ref": "float32"}, {"est": "float32"}, {"ref": "float32", "est": "float32"}])
+    dt = {k: v for k, v in dt.items() if v and gen.exact_in(ref if k == "ref" else est, v)}
+    return ref, est, w, dt, "dtype ref=%s est=%s" % (dt.get("ref", "float64"), dt.get("est", "float64"))
+
+
+def events_info(ref, est, w, dt=None):
+    d = {"ref": [str(x) for x in ref], "est": [str(x) for x in est], "window": str(w)}
+    if dt:
+        d["dtype"] = dict(dt)
+    return d
+
+
+def typed(inp, side, values):
+    """the array the code receives for `side` of an oracle input / case info"""
+    return gen.arr_as(values, (inp.get("dtype") or {}).get(side))
+
+
+def match_events_case(ref, est, w, dt, tag):
+    try:
+        pairs = [(int(a), int(b)) for a, b in
+                 util.match_events(gen.arr_as(ref, dt.get("ref")), gen.arr_as(est, dt.get("est")), float(w))]
+        res = [True, len(pairs), len(pairs), True]
+        call = (lambda r=res: r)
+    except Exception as e:  # noqa: BLE001
+        pairs = []
+        call = (lambda e=e: (_ for _ in ()).throw(e))
+    return Case("matching.check_events", [ref, est, w, [list(p) for p in pairs]], call,
+                tag=tag, info=events_info(ref, est, w, dt), nontrivial=bool(ref and est))
+
+
 def suite_match_events(rng, tier, shard, nshards):
     n = 400 if tier == "quick" else 20000
     for _ in range(n):
         ref, est, w = events_instance(rng)
-        try:
-            pairs = [(int(a), int(b)) for a, b in util.match_events(gen.arr(ref), gen.arr(est), float(w))]
-            res = [True, len(pairs), len(pairs), True]
-            call = (lambda r=res: r)
-        except Exception as e:  # noqa: BLE001
-            pairs = []
-            call = (lambda e=e: (_ for _ in ()).throw(e))
-        yield Case("matching.check_events", [ref, est, w, [list(p) for p in pairs]], call,
-                   tag="w=%s" % w, info={"ref": [str(x) for x in ref], "est": [str(x) for x in est], "window": str(w)},
-                   nontrivial=bool(ref and est))
+        yield match_events_case(ref, est, w, {}, "w=%s" % w)
+    for _ in range(n // 3):
+        ref, est, w, dt, tag = typed_events_instance(rng)
+        yield match_events_case(ref, est, w, dt, tag)
 
 
 def suite_fast_hit_windows(rng, tier, shard, nshards):
     n = 400 if tier == "quick" else 20000
-    for _ in range(n):
-        ref, est, w = events_instance(rng)
+    for k in range(n + n // 3):
+        if k < n:
+            ref, est, w = events_instance(rng)
+            dt, tag = {}, "w=%s" % w
+        else:
+            ref, est, w, dt, tag = typed_events_instance(rng)
 
-        def call(ref=ref, est=est, w=w):
-            a, b = util._fast_hit_windows(gen.arr(ref), gen.arr(est), float(w))
+        def call(ref=ref, est=est, w=w, dt=dt):
+            a, b = util._fast_hit_windows(gen.arr_as(ref, dt.get("ref")), gen.arr_as(est, dt.get("est")), float(w))
             return sorted([int(x), int(y)] for x, y in zip(a, b))
-        yield Case("util._fast_hit_windows", [ref, est, w], call, tag="w=%s" % w,
-                   info={"ref": [str(x) for x in ref], "est": [str(x) for x in est], "window": str(w)},
-                   nontrivial=bool(ref and est))
+        yield Case("util._fast_hit_windows", [ref, est, w], call, tag=tag,
+                   info=events_info(ref, est, w, dt), nontrivial=bool(ref and est))
         # the code's enumeration vs the specification |ref_i - est_j| <= w (model of the definition)
-        yield Case("matching.hit_pairs", [ref, est, w], call, tag="spec w=%s" % w,
-                   info={"ref": [str(x) for x in ref], "est": [str(x) for x in est], "window": str(w)},
-                   nontrivial=bool(ref and est))
+        yield Case("matching.hit_pairs", [ref, est, w], call, tag="spec " + tag,
+                   info=events_info(ref, est, w, dt), nontrivial=bool(ref and est))
 
 
 def suite_mod_distance(rng, tier, shard, nshards):
@@ -244,12 +294,87 @@ def suite_hk_shuffled(rng, tier, shard, nshards):
             yield hk_case(sh, "hk random reshuffled")
 
 
+# ---------------------------------------------------------------------------------------------
+# structures that are adversarial for the routine's own control flow (harness/hkgraphs.py): families of alternating
+# chains whose greedy start is wrong on every chain, one Hopcroft-Karp phase per distinct chain length, deep backward
+# recursion on long chains.  (a) transliteration = real routine pair for pair, (b) the real pairing through the proved
+# checker, as dicts and embedded as events / note onsets / multi-f0 frames on the exact lattice.
+import hkgraphs  # noqa: E402
+
+
+def n_chain(tier):
+    return 10 if tier == "quick" else 60        # per shard
+
+
+def suite_hk_chains(rng, tier, shard, nshards):
+    for _ in range(n_chain(tier)):
+        items, tag = hkgraphs.random_family(rng, tier)
+        yield hk_case(items, "hk " + tag)
+
+
+def suite_chain_graphs(rng, tier, shard, nshards):
+    for _ in range(n_chain(tier)):
+        items, tag = hkgraphs.random_family(rng, tier)
+        yield graph_case(items, tag)
+
+
+def suite_chain_events(rng, tier, shard, nshards):
+    for _ in range(n_chain(tier)):
+        ref, est, w, tag = hkgraphs.random_chain_events(rng, tier)
+        yield match_events_case(ref, est, w, {}, tag)
+
+
+def suite_chain_note_onsets(rng, tier, shard, nshards):
+    """the chain events as note onsets: match_note_onsets builds the graph from np.where on the distance matrix"""
+    from mir_eval import transcription as T
+    for _ in range(n_chain(tier)):
+        ref, est, w, tag = hkgraphs.random_chain_events(rng, tier)
+        strict = rng.random() < 0.3 and all(abs(a - b) != w for a in ref for b in est)
+        ri = [[t, t + 1] for t in ref]
+        ei = [[t, t + 1] for t in est]
+        try:
+            m = [[int(a), int(b)] for a, b in T.match_note_onsets(gen.arr_as(ri, None, (-1, 2)), gen.arr_as(ei, None, (-1, 2)),
+                                                                 onset_tolerance=float(w), strict=bool(strict))]
+            res = [True, len(m), len(m), True]
+            call = (lambda r=res: r)
+        except Exception as e:  # noqa: BLE001
+            m = []
+            call = (lambda e=e: (_ for _ in ()).throw(e))
+        yield Case("transcription.check_match_note_onsets", [ri, ei, w, bool(strict), m], call, tag=tag,
+                   info={"notes": True, "ref": [[str(a), str(b), "60"] for a, b in ri],
+                         "est": [[str(a), str(b), "60"] for a, b in ei],
+                         "params": {"onset_tolerance": str(w), "pitch_tolerance": "50", "offset_ratio": None,
+                                    "offset_min_tolerance": "1/20", "strict": bool(strict), "beta": "1"}},
+                   nontrivial=True)
+
+
+def suite_chain_true_positives(rng, tier, shard, nshards):
+    """the chain events as the MIDI values of one multi-f0 frame (raw window and, within one octave, chroma-wrapped)"""
+    from mir_eval import multipitch as mp
+    for _ in range(n_chain(tier)):
+        chroma = rng.random() < 0.4
+        ref, est, w, tag = hkgraphs.random_chain_events(rng, tier, max_span=12 if chroma else None)
+        ref = [x + (0 if chroma else 30) for x in ref]
+        est = [x + (0 if chroma else 30) for x in est]
+
+        def call(ref=ref, est=est, w=w, chroma=chroma):
+            return [int(x) for x in mp.compute_num_true_positives([gen.arr(ref)], [gen.arr(est)], window=float(w),
+                                                                  chroma=chroma)]
+        yield Case("multipitch.compute_num_true_positives", [[ref], [est], w, chroma], call,
+                   tag="%s chroma=%s" % (tag, chroma),
+                   info={"ref_midi": [[str(x) for x in ref]], "est_midi": [[str(x) for x in est]], "window": str(w),
+                         "chroma": chroma}, nontrivial=True)
+
+
 from suites import transcription as _TR, multipitch as _MP  # noqa: E402
 
 SUITES = {"exhaustive_graphs": suite_exhaustive, "random_graphs": suite_random,
           "match_events": suite_match_events, "fast_hit_windows": suite_fast_hit_windows,
           "mod_distance": suite_mod_distance,
           "hk.exhaustive_dicts": suite_hk_exhaustive, "hk.shuffled_dicts": suite_hk_shuffled,
+          "hk.chain_families": suite_hk_chains, "chains.graphs": suite_chain_graphs,
+          "chains.events": suite_chain_events, "chains.note_onsets": suite_chain_note_onsets,
+          "chains.true_positives": suite_chain_true_positives,
           # note matching: pairings returned by the real match_notes / match_note_onsets / match_note_offsets go through
           # the proved checker against the model's feasibility graph (onset / pitch / offset criteria, strict, offset_ratio)
           "transcription.match_notes": _TR.SUITES["transcription.match_notes"],
@@ -316,13 +441,16 @@ def gen_bipartite(rng, tier, shard, nshards, boost):
     for _ in range(n):
         items = random_graph(rng, 10 if tier == "quick" else 30)
         yield {"adj": [[u, vs] for u, vs in items]}
+    for _ in range((10 if tier == "quick" else 60) * boost):
+        items, _ = hkgraphs.random_family(rng, tier)           # chain families: one phase per distinct chain length
+        yield {"adj": [[u, vs] for u, vs in items]}
 
 
 def check_match_events(inp):
     ref = [gen.fr(x) for x in inp["ref"]]
     est = [gen.fr(x) for x in inp["est"]]
     w = gen.fr(inp["window"])
-    pairs = [(int(a), int(b)) for a, b in util.match_events(gen.arr(ref), gen.arr(est), float(w))]
+    pairs = [(int(a), int(b)) for a, b in util.match_events(typed(inp, "ref", ref), typed(inp, "est", est), float(w))]
     adj = {}
     for i, r in enumerate(ref):
         for j, e in enumerate(est):
@@ -330,29 +458,42 @@ def check_match_events(inp):
                 adj.setdefault(i, []).append(j)
     what = check_pairs(pairs, lambda p: abs(ref[p[0]] - est[p[1]]) <= w, py_max_matching(adj))
     if what:
-        return what
+        return what + dtype_note(inp)
     # order independence of the size
     perm_r = inp.get("perm_ref")
     perm_e = inp.get("perm_est")
     if perm_r is not None:
         ref2 = [ref[i] for i in perm_r]
         est2 = [est[i] for i in perm_e]
-        n2 = len(util.match_events(gen.arr(ref2), gen.arr(est2), float(w)))
+        n2 = len(util.match_events(typed(inp, "ref", ref2), typed(inp, "est", est2), float(w)))
         if n2 != len(pairs):
-            return "size %d after permuting the items, %d before" % (n2, len(pairs))
+            return "size %d after permuting the items, %d before" % (n2, len(pairs)) + dtype_note(inp)
     return None
+
+
+def dtype_note(inp):
+    dt = inp.get("dtype")
+    return " (arrays handed over as %s)" % ", ".join("%s: %s" % kv for kv in sorted(dt.items())) if dt else ""
 
 
 def gen_match_events(rng, tier, shard, nshards, boost):
     n = (300 if tier == "quick" else 5000) * boost
-    for _ in range(n):
-        ref, est, w = events_instance(rng)
+    for k in range(n + n // 3 + (8 if tier == "quick" else 40) * boost):
+        if k < n:
+            ref, est, w = events_instance(rng)
+            dt = None
+        elif k < n + n // 3:
+            ref, est, w, dt, _ = typed_events_instance(rng)       # integer / single-precision arrays
+        else:
+            ref, est, w, _ = hkgraphs.random_chain_events(rng, tier)     # chain families (hkgraphs.py)
+            dt = None
         pr = list(range(len(ref)))
         pe = list(range(len(est)))
         rng.shuffle(pr)
         rng.shuffle(pe)
-        yield {"ref": [str(x) for x in ref], "est": [str(x) for x in est], "window": str(w),
-               "perm_ref": pr, "perm_est": pe}
+        inp = events_info(ref, est, w, dt)
+        inp.update(perm_ref=pr, perm_est=pe)
+        yield inp
 
 
 def check_match_events_distance(inp):
@@ -455,20 +596,255 @@ def check_event_hitcounts(inp):
             if abs(r - e) <= w:
                 adj.setdefault(i, []).append(j)
     want = py_max_matching(adj)
-    for name, got in (("onset.f_measure", mir_eval.onset.f_measure(gen.arr(ref), gen.arr(est), window=float(w))),
-                      ("beat.f_measure", (mir_eval.beat.f_measure(gen.arr(ref), gen.arr(est),
-                                                                 f_measure_threshold=float(w)),))):
+    ra, ea = typed(inp, "ref", ref), typed(inp, "est", est)
+    for name, got in (("onset.f_measure", mir_eval.onset.f_measure(ra, ea, window=float(w))),
+                      ("beat.f_measure", (mir_eval.beat.f_measure(ra, ea, f_measure_threshold=float(w)),))):
         if name == "beat.f_measure":
             f = float(got[0])
             fw = 2.0 * want / (len(ref) + len(est))
             if abs(f - fw) > 1e-9:
-                return "%s = %r; with the maximum matching (%d hits) it is %r" % (name, f, want, fw)
+                return "%s = %r; with the maximum matching (%d hits) it is %r" % (name, f, want, fw) + dtype_note(inp)
             continue
         _, p, r = [float(x) for x in got]
         if abs(p * len(est) - want) > 1e-6 or abs(r * len(ref) - want) > 1e-6:
             return ("%s: precision %r / recall %r mean %.6f / %.6f hits; the maximum one-to-one matching has %d"
-                    % (name, p, r, p * len(est), r * len(ref), want))
+                    % (name, p, r, p * len(est), r * len(ref), want)) + dtype_note(inp)
     return None
+
+
+def check_segment_detection(inp):
+    """task level: segment.detection counts boundary hits = maximum matching of the boundary sets under |r - e| <= window
+    (boundaries = the distinct interval end points, without the outermost two when trim=True)"""
+    ri = [[gen.fr(a), gen.fr(b)] for a, b in inp["ref"]]
+    ei = [[gen.fr(a), gen.fr(b)] for a, b in inp["est"]]
+    w = gen.fr(inp["window"])
+    trim = bool(inp.get("trim"))
+    rb = sorted({x for iv in ri for x in iv})
+    eb = sorted({x for iv in ei for x in iv})
+    if trim:
+        rb, eb = rb[1:-1], eb[1:-1]
+    dt = inp.get("dtype") or {}
+    p, r, f = mir_eval.segment.detection(gen.arr_as(ri, dt.get("ref"), (-1, 2)), gen.arr_as(ei, dt.get("est"), (-1, 2)),
+                                         window=float(w), trim=trim)
+    if not rb or not eb:
+        return None if (p, r, f) == (0.0, 0.0, 0.0) else "detection without boundaries on one side gives %r" % ((p, r, f),)
+    adj = {}
+    for i, a in enumerate(rb):
+        for j, b in enumerate(eb):
+            if abs(a - b) <= w:
+                adj.setdefault(i, []).append(j)
+    want = py_max_matching(adj)
+    if abs(float(p) * len(eb) - want) > 1e-6 or abs(float(r) * len(rb) - want) > 1e-6:
+        return ("segment.detection: precision %r / recall %r mean %.6f / %.6f boundary hits; the maximum one-to-one "
+                "matching of the boundaries has %d" % (p, r, float(p) * len(eb), float(r) * len(rb), want)) + dtype_note(inp)
+    return None
+
+
+def gen_segment_detection(rng, tier, shard, nshards, boost):
+    import tasks as T_
+    for _ in range((120 if tier == "quick" else 2500) * boost):
+        whole = rng.random() < 0.6
+        lat = 1 if whole else 8
+        span = Fr(rng.randint(3, 14))
+        ri, _ = T_.gen_segmentation(rng, span, nmax=7, lat=lat)
+        w = rng.choice([Fr(1, 2), Fr(1, 2), Fr(3), Fr(1, 4), Fr(3, 8), Fr(3, 2), Fr(1), Fr(5, 4)])
+        if rng.random() < 0.6:
+            # estimated boundaries next to the reference's: on / off the window, end points kept
+            cuts = sorted({a + rng.choice([0, 0, w, -w, w + Fr(1, 8), -w - Fr(1, 8), Fr(3, 8), -Fr(5, 8), 1, -1])
+                           for a, _ in ri[1:] if rng.random() < 0.85})
+            cuts = [c for c in cuts if 0 < c < span]
+            b = [Fr(0)] + cuts + [span]
+            ei = [[b[i], b[i + 1]] for i in range(len(b) - 1)]
+        else:
+            ei, _ = T_.gen_segmentation(rng, span + rng.choice([0, 0, 1, -1]), nmax=7, lat=rng.choice([1, 8]))
+        inp = {"ref": [[str(a), str(b)] for a, b in ri], "est": [[str(a), str(b)] for a, b in ei], "window": str(w),
+               "trim": rng.random() < 0.4}
+        if whole or rng.random() < 0.3:
+            dt = gen.pick_dtypes(rng)
+            dt = {k: v for k, v in dt.items() if gen.exact_in(ri if k == "ref" else ei, v)}
+            if dt:
+                inp["dtype"] = dt
+        yield inp
+
+
+def check_mp_true_positives(inp):
+    """multipitch.compute_num_true_positives called the way a user with MIDI note lists calls it: per frame the count
+    is the maximum matching size under |r - e| <= window (chroma=True: circular distance modulo 12)"""
+    from mir_eval import multipitch as mp
+    rf = [[gen.fr(x) for x in f] for f in inp["ref_midi"]]
+    ef = [[gen.fr(x) for x in f] for f in inp["est_midi"]]
+    w = gen.fr(inp["window"])
+    chroma = bool(inp.get("chroma"))
+    dt = inp.get("dtype") or {}
+    got = [int(x) for x in mp.compute_num_true_positives([gen.arr_as(f, dt.get("ref")) for f in rf],
+                                                         [gen.arr_as(f, dt.get("est")) for f in ef],
+                                                         window=float(w), chroma=chroma)]
+    for k, (r, e) in enumerate(zip(rf, ef)):
+        adj = {}
+        for i, a in enumerate(r):
+            for j, b in enumerate(e):
+                d = abs(a - b)
+                if chroma:
+                    d = abs(a % 12 - b % 12)
+                    d = min(d, 12 - d)
+                if d <= w:
+                    adj.setdefault(i, []).append(j)
+        want = py_max_matching(adj)
+        if got[k] != want:
+            return ("compute_num_true_positives(chroma=%s) reports %d true positives in frame %d; the maximum "
+                    "one-to-one matching has %d" % (chroma, got[k], k, want)) + dtype_note(inp)
+    return None
+
+
+def gen_mp_true_positives(rng, tier, shard, nshards, boost):
+    n = (120 if tier == "quick" else 2500) * boost
+    for k in range(n + (6 if tier == "quick" else 40) * boost):
+        chroma = rng.random() < 0.4
+        if k >= n:
+            ref, est, w, _ = hkgraphs.random_chain_events(rng, tier, max_span=12 if chroma else None)
+            off = 0 if chroma else 30
+            yield {"ref_midi": [[str(x + off) for x in ref]], "est_midi": [[str(x + off) for x in est]], "window": str(w),
+                   "chroma": chroma}
+            continue
+        # MIDI note numbers (whole numbers: what a piano roll gives) against estimates on and off the semitone grid
+        w = rng.choice([Fr(1, 2), Fr(1, 2), Fr(1, 4), Fr(3, 4), Fr(1), Fr(3, 2), Fr(5, 4)])
+        rf, ef = [], []
+        both_whole = rng.random() < 0.3
+        for _ in range(rng.choice([1, 2, 3, 5])):
+            r = sorted({Fr(rng.randint(48, 72)) for _ in range(rng.choice([0, 1, 2, 3, 5]))})
+            if rng.random() < 0.3:
+                rng.shuffle(r)
+            e = []
+            for m in r:
+                if rng.random() < 0.85:
+                    if both_whole:
+                        e.append(m + rng.choice([0, 0, 1, -1, 12, -12, 2]))
+                    else:
+                        e.append(m + rng.choice([0, Fr(10, 32), -Fr(13, 32), Fr(19, 32), -Fr(22, 32), w, -w,
+                                                 w + Fr(1, 32), Fr(35, 32), 12 + Fr(3, 8), -12 - Fr(5, 8)]))
+            rf.append(r)
+            ef.append(e)
+        inp = {"ref_midi": [[str(x) for x in f] for f in rf], "est_midi": [[str(x) for x in f] for f in ef],
+               "window": str(w), "chroma": chroma}
+        dt = gen.pick_dtypes(rng)
+        dt = {kk: v for kk, v in dt.items() if gen.exact_in(rf if kk == "ref" else ef, v)}
+        if dt:
+            inp["dtype"] = dt
+        yield inp
+
+
+NOTE_PARAMS0 = {"onset_tolerance": "1/20", "pitch_tolerance": "50", "offset_ratio": "1/5", "offset_min_tolerance": "1/20",
+                "strict": False, "beta": "1"}
+
+
+def check_note_matchers(inp):
+    """match_notes / match_note_onsets / match_note_offsets on notes whose interval (and pitch) arrays are handed over
+    in the caller's dtype: valid, one-to-one, maximum for the documented criteria.  Pitches are MIDI numbers converted
+    to Hz as usual, or (pitch_unit = 'hz') whole numbers of Hz in an integer array; the generator keeps every pitch
+    distance >= 1 cent away from the tolerance."""
+    import math
+    from mir_eval import transcription as T
+    from props import t_transcription as TT
+    ref, est, p = TT.unnotes(inp["ref"]), TT.unnotes(inp["est"]), TT.unparams(inp["params"])
+    dt = inp.get("dtype") or {}
+    ri = gen.arr_as([[n[0], n[1]] for n in ref], dt.get("ref"), (-1, 2))
+    ei = gen.arr_as([[n[0], n[1]] for n in est], dt.get("est"), (-1, 2))
+    if inp.get("pitch_unit") == "hz":
+        rp = gen.arr_as([n[2] for n in ref], dt.get("ref_pitch"))
+        ep = gen.arr_as([n[2] for n in est], dt.get("est_pitch"))
+
+        def pitch_ok(q, r, e):
+            c = 1200.0 * abs(math.log2(float(r[2])) - math.log2(float(e[2])))
+            return c < float(q["pitch_tolerance"]) if q["strict"] else c <= float(q["pitch_tolerance"])
+    else:
+        rp, ep = TT.S.pitches(ref), TT.S.pitches(est)
+        pitch_ok = TT.pitch_ok
+    for ratio in ([p["offset_ratio"], None] if p["offset_ratio"] is not None else [None]):
+        q = dict(p)
+        q["offset_ratio"] = ratio
+
+        def ok(i, j, q=q):
+            return TT.onset_ok(q, ref[i], est[j]) and pitch_ok(q, ref[i], est[j]) and \
+                (q["offset_ratio"] is None or TT.offset_ok(q, ref[i], est[j]))
+        pairs = TT.S.pairs_of(T.match_notes(ri, rp, ei, ep, **TT.kwargs(q, TT.S.K_NOTES)))
+        what = TT.check_pairs([tuple(x) for x in pairs], len(ref), len(est), ok, "match_notes(offset_ratio=%s)" % ratio)
+        if what:
+            return what + dtype_note(inp)
+    pairs = TT.S.pairs_of(T.match_note_onsets(ri, ei, **TT.kwargs(p, TT.S.K_ONSET)))
+    what = TT.check_pairs([tuple(x) for x in pairs], len(ref), len(est), lambda i, j: TT.onset_ok(p, ref[i], est[j]),
+                          "match_note_onsets")
+    if what:
+        return what + dtype_note(inp)
+    if p["offset_ratio"] is not None:
+        pairs = TT.S.pairs_of(T.match_note_offsets(ri, ei, **TT.kwargs(p, TT.S.K_OFFSET)))
+        what = TT.check_pairs([tuple(x) for x in pairs], len(ref), len(est),
+                              lambda i, j: TT.offset_ok(p, ref[i], est[j]), "match_note_offsets")
+        if what:
+            return what + dtype_note(inp)
+    return None
+
+
+HZ_POOL = [110, 220, 440, 880, 262, 294, 330, 349, 392, 415, 466, 494, 523, 233, 247, 277, 311, 370, 441, 445, 452, 427]
+
+
+def gen_note_matchers(rng, tier, shard, nshards, boost):
+    import math
+    n = (100 if tier == "quick" else 2000) * boost
+    for k in range(n + (6 if tier == "quick" else 40) * boost):
+        if k >= n:
+            # chain families as note onsets (equal pitches, durations long enough for the offset criterion to agree)
+            ref, est, w, _ = hkgraphs.random_chain_events(rng, tier)
+            dur = rng.choice([1, 2, 8])
+            par = dict(NOTE_PARAMS0, onset_tolerance=str(w), offset_ratio=rng.choice([None, "1/5", "1/2"]),
+                       offset_min_tolerance=str(rng.choice([w, Fr(1, 20)])))
+            yield {"ref": [[str(t), str(t + dur), "60"] for t in ref], "est": [[str(t), str(t + dur), "60"] for t in est],
+                   "params": par}
+            continue
+        # notes annotated on whole seconds (integer interval arrays), pitches as whole Hz (integer arrays) or MIDI
+        hzu = rng.random() < 0.6
+        # (MIDI numbers: pitch distances are multiples of 100 cents, the tolerance stays >= 25 cents away from them)
+        tol = rng.choice([Fr(50), Fr(50), Fr(25), Fr(100), Fr(35)] if hzu else [Fr(50), Fr(50), Fr(25), Fr(35), Fr(130)])
+        par = dict(NOTE_PARAMS0, pitch_tolerance=str(tol),
+                   onset_tolerance=str(rng.choice([Fr(1, 20), Fr(1, 2), Fr(3, 8), Fr(1), Fr(3, 2), Fr(1, 4)])),
+                   offset_ratio=rng.choice([None, "1/5", "1/5", "1/2", "1/4"]),
+                   offset_min_tolerance=str(rng.choice([Fr(1, 20), Fr(1, 2), Fr(3, 8), Fr(1)])),
+                   strict=rng.random() < 0.25)
+        ow = Fr(par["onset_tolerance"])
+        ref = []
+        for _ in range(rng.choice([1, 2, 3, 4, 5, 6, 8])):
+            on = Fr(rng.randint(0, 10))
+            pit = Fr(rng.choice(HZ_POOL)) if hzu else Fr(rng.randint(48, 84))
+            ref.append([on, on + rng.choice([1, 1, 2, 3, 5]), pit])
+        whole_est = rng.random() < 0.3
+        est = []
+        for on, off, pit in ref:
+            if rng.random() < 0.15:
+                continue
+            if whole_est:
+                on2 = max(Fr(0), on + rng.choice([0, 0, 0, 1, -1]))
+                off2 = max(on2 + 1, off + rng.choice([0, 0, 1, -1, 2]))
+            else:
+                on2 = max(Fr(0), on + rng.choice([0, Fr(5, 16), -Fr(7, 16), Fr(9, 16), -Fr(11, 16), ow, -ow,
+                                                  ow + Fr(1, 16), -ow - Fr(1, 16)]))
+                off2 = max(on2 + Fr(1, 16), off + rng.choice([0, Fr(3, 16), -Fr(5, 16), Fr(9, 16), Fr(1), -Fr(19, 16)]))
+            pit2 = Fr(rng.choice(HZ_POOL)) if (hzu and rng.random() < 0.3) else pit + (0 if hzu else rng.choice([0, 0, 0, 1, 12]))
+            est.append([on2, off2, pit2])
+        if rng.random() < 0.3:
+            rng.shuffle(est)
+        if hzu:
+            # >= 1 cent between every pitch distance and the tolerance
+            if any(abs(1200.0 * abs(math.log2(float(a[2]) / float(b[2]))) - float(tol)) < 1.0 for a in ref for b in est):
+                continue
+        inp = {"ref": [[str(x) for x in nn] for nn in ref], "est": [[str(x) for x in nn] for nn in est], "params": par}
+        if hzu:
+            inp["pitch_unit"] = "hz"
+        dt = gen.pick_dtypes(rng, sides=("ref", "est", "ref_pitch", "est_pitch") if hzu else ("ref", "est"))
+        vals = {"ref": [nn[:2] for nn in ref], "est": [nn[:2] for nn in est], "ref_pitch": [nn[2] for nn in ref],
+                "est_pitch": [nn[2] for nn in est]}
+        dt = {kk: v for kk, v in dt.items() if gen.exact_in(vals[kk], v)}
+        if dt:
+            inp["dtype"] = dt
+        yield inp
 
 
 def gen_mp_hitcounts(rng, tier, shard, nshards, boost):
@@ -481,11 +857,17 @@ def gen_mp_hitcounts(rng, tier, shard, nshards, boost):
 CHECKERS = {"util._bipartite_match": check_bipartite, "util.match_events": check_match_events,
             "util.match_events(distance)": check_match_events_distance,
             "multipitch.metrics(hit counts)": check_mp_hitcounts,
-            "onset/beat.f_measure(hit counts)": check_event_hitcounts}
+            "onset/beat.f_measure(hit counts)": check_event_hitcounts,
+            "segment.detection(hit counts)": check_segment_detection,
+            "multipitch.compute_num_true_positives": check_mp_true_positives,
+            "transcription.match_*(caller's arrays)": check_note_matchers}
 ORACLES = {"util._bipartite_match": gen_bipartite, "util.match_events": gen_match_events,
            "util.match_events(distance)": gen_match_events_distance,
            "multipitch.metrics(hit counts)": gen_mp_hitcounts,
-           "onset/beat.f_measure(hit counts)": gen_match_events}
+           "onset/beat.f_measure(hit counts)": gen_match_events,
+           "segment.detection(hit counts)": gen_segment_detection,
+           "multipitch.compute_num_true_positives": gen_mp_true_positives,
+           "transcription.match_*(caller's arrays)": gen_note_matchers}
 
 
 def classify(suite, d):
@@ -494,13 +876,24 @@ def classify(suite, d):
         if "adj" in i:
             return "util._bipartite_match", {"adj": i["adj"]}
         return "util.match_events", {"ref": i["ref"], "est": i["est"], "window": i["window"]}
+    if suite in ("chains.graphs", "hk.chain_families"):
+        return "util._bipartite_match", {"adj": i["adj"]}
+    if suite == "chains.events":
+        return "util.match_events", {"ref": i["ref"], "est": i["est"], "window": i["window"]}
+    if suite == "chains.note_onsets":
+        return "transcription.match_*(caller's arrays)", {"ref": i["ref"], "est": i["est"], "params": i["params"]}
+    if suite in ("chains.true_positives", "multipitch.num_true_positives") and "ref_midi" in i:
+        return "multipitch.compute_num_true_positives", {k: i[k] for k in ("ref_midi", "est_midi", "window", "chroma")}
     if suite.startswith("transcription") or suite.startswith("fixtures.transcription"):
         from props import t_transcription
         return t_transcription.classify(suite, d)
     if suite in ("exhaustive_graphs", "random_graphs") or suite.startswith("hk."):
         return "util._bipartite_match", {"adj": i["adj"]}
     if suite in ("match_events", "fast_hit_windows"):
-        return "util.match_events", {"ref": i["ref"], "est": i["est"], "window": i["window"]}
+        inp = {"ref": i["ref"], "est": i["est"], "window": i["window"]}
+        if i.get("dtype"):
+            inp["dtype"] = i["dtype"]
+        return "util.match_events", inp
     return None
 
 from props import _relational  # noqa: E402
